@@ -144,6 +144,36 @@ def main(tier, seed):
                                                            np.array_equal(Gn, (want - want.min()) / (want.max() - want.min()))):
                         nviol += 1
                         rep.violation("get_distances(normalize=True) is not the min-max rescaling to [0,1] (%s)" % metric, desc, key="get_distances")
+    # ---- get_distances() for every registered metric (cheap: one small supervised model each)
+    gd = dict(metrics=0, normalised_checked=0)
+    for metric in T.ALL:
+        dom = T.domain(metric)
+        n, dim = 6, 2
+        X = np.array([[rng.uniform(0.05, 5) for _ in range(dim)] for _ in range(n)])
+        if dom == "prob":
+            X = X / X.sum(axis=1, keepdims=True)
+        Y = np.array([0, 1, 0, 1, 0, 1])
+        try:
+            a = SupervisedOPF(distance=metric); a.fit(X, Y)
+            G = a.get_distances(); Gn = a.get_distances(normalize=True)
+        except (ZeroDivisionError, IndexError):
+            continue
+        fnm = d.DISTANCES[metric]
+        want = np.array([[float(fnm(X[i].copy(), X[j].copy())) for j in range(n)] for i in range(n)])
+        gd["metrics"] += 1
+        rep.count_case(("get_distances", metric, X.tobytes()), True)
+        desc = dict(model="sup", metric=metric, X=X.tolist(), Y=Y.tolist())
+        if np.isnan(want).any():
+            continue
+        if G.tobytes() != want.tobytes():
+            nviol += 1
+            rep.violation("get_distances() differs from the metric on some ordered pair (%s)" % metric, desc, key="get_distances")
+        elif want.max() > want.min():
+            gd["normalised_checked"] += 1
+            if not (Gn.min() == 0.0 and Gn.max() == 1.0 and np.array_equal(Gn, (want - want.min()) / (want.max() - want.min()))):
+                nviol += 1
+                rep.violation("get_distances(normalize=True) is not the min-max rescaling to [0,1] (%s): range [%r, %r]" % (metric, float(Gn.min()), float(Gn.max())), desc, key="get_distances")
+    stats["get_distances"] = gd
     shutil.rmtree(tmp, ignore_errors=True)
     rep.obligation("correspondence: model through the distance file (index arrays) == model computing the metric directly (forest state bit-for-bit, predictions)",
                    not [v for v in rep.violations], "%d disagreements" % len(rep.violations))
